@@ -165,6 +165,7 @@ def jobs(tier, seed=0):
                   data_values=(0xA5A5, 0x5A5A), dev_values=(0x1C3C3C3C3,),
                   monitor_atomic=not is_atomic_little(ordering, regs, 16))
         A(SramInst, "sram/4x16-on-8/staging", 16, 4, paging=0x40, data_values=(0xA5,))
+        A(SramInst, "sram/2x32-on-8/ratio4", 32, 2, paging=0x40, data_values=(0xA5,))
         A(SramInst, "sram/8x8/paged2", 8, 8, paging=0x10, data_values=(0xA5,))
         A(ArrayInst, "array/little/2banks+mem/2masters",
           [("a", [S(9, atomic=True)], []), ("b", [T(3)], [(8, 2, False, None)])],
@@ -183,6 +184,7 @@ def jobs(tier, seed=0):
     A(SramInst, "sram/3x8/odd-depth", 8, 3, paging=0x20, init=[1, 2, 3])
     A(SramInst, "sram/4x4-on-8/narrow", 4, 4, paging=0x20)
     A(SramInst, "sram/2x12-on-8/partial-top-word", 12, 2, paging=0x20, init=[0xABC])
+    A(SramInst, "sram/2x32-on-8/ratio4/word0", 32, 2, paging=0x40, data_values=(0xA5,), nadr=4)
     A(SramInst, "sram/6x8/paged-nonpow2", 8, 6, paging=0x10, data_values=(0xA5,))
     A(SramInst, "sram/4x8/bus_read_only-attr", 8, 4, paging=0x20, read_only=True, init=[9, 8, 7, 6], via="bus_read_only")
     A(SramInst, "sram/4x8/constructor-defaults", 8, 4, address=2, via="default_bus")
@@ -209,6 +211,12 @@ def jobs(tier, seed=0):
         address = rng.randrange(0, (1 << aw) // (paging // 4))
         B(BankInst, "bankB/%d/%s/random%d" % (bw, ordering, k), regs, bw=bw, ordering=ordering, paging=paging, aw=aw,
           address=address, monitor_atomic=not is_atomic_little(ordering, regs, bw))
+    # staging ratios 4 and 8 (memory word = 4x / 8x the bus width): every sub-word written with a distinct value and
+    # read back (scripted prefix), then random traffic
+    B(SramInst, "sramB/8x32-on-8/ratio4-fill", 32, 8, bw=8, paging=0x100, script=True)
+    B(SramInst, "sramB/4x64-on-8/ratio8-fill", 64, 4, bw=8, paging=0x100, script=True, init=[2 ** 64 - 1])
+    B(SramInst, "sramB/4x128-on-32/ratio4-fill", 128, 4, bw=32, paging=0x100, script=True)
+    B(SramInst, "sramB/16x32-on-8/ratio4-paged-fill", 32, 16, bw=8, paging=0x40, script=True)
     B(SramInst, "sramB/64x32-on-32", 32, 64, bw=32, paging=0x80)
     B(SramInst, "sramB/64x32-on-8/paged", 32, 64, bw=8, paging=0x80)
     B(SramInst, "sramB/5x4-on-8/paged-odd", 4, 5, bw=8, paging=0x10)
@@ -220,10 +228,34 @@ def jobs(tier, seed=0):
 # ---------------------------------------------------------------------------------------------------------
 # mode C: Python-level code
 
-def _real_sort(fixed):
-    """Run the real `_sort_gathered_items` on fresh CSR objects; returns ('ok', slots) | ('conflict',) | ('indexerror',)"""
+ITEM_KINDS = ("csr", "storage", "status", "status_fields", "status_rw", "storage_fields", "constant")
+
+
+def _mk_item(kind, name, n):
+    """One gatherable item of the given class with the DECLARED fixed location `n` (the oracle uses the declared
+    value, never the attribute the constructor stored)."""
     from litex.soc.interconnect import csr
-    items = [csr.CSR(1, name="i%d" % k, n=n) for k, n in enumerate(fixed)]
+    if kind == "csr":
+        return csr.CSR(1, name=name, n=n)
+    if kind == "storage":
+        return csr.CSRStorage(9, name=name, n=n)
+    if kind == "storage_fields":
+        return csr.CSRStorage(fields=[csr.CSRField("f", 2), csr.CSRField("g", 1, offset=4)], name=name, n=n)
+    if kind == "status":
+        return csr.CSRStatus(17, name=name, n=n)
+    if kind == "status_fields":
+        return csr.CSRStatus(fields=[csr.CSRField("f", 2), csr.CSRField("g", 1, offset=4)], name=name, n=n)
+    if kind == "status_rw":
+        return csr.CSRStatus(3, name=name, read_only=False, n=n)
+    return csr.CSRConstant(5, name=name, n=n)
+
+
+def _real_sort(fixed, kinds=None):
+    """Run the real `_sort_gathered_items` on fresh items (classes given by `kinds`, default plain CSRs); returns
+    ('ok', slots, names) | ('conflict',) | ('indexerror',)"""
+    from litex.soc.interconnect import csr
+    kinds = kinds or ["csr"] * len(fixed)
+    items = [_mk_item(kd, "i%d" % k, n) for k, (n, kd) in enumerate(zip(fixed, kinds))]
     idx = {id(it): k for k, it in enumerate(items)}
     try:
         res = csr._sort_gathered_items(list(items))
@@ -257,23 +289,39 @@ def correspond_sort(ctx, out, n_cases):
     for _ in range(n_cases):
         L = rng.randint(1, 8)
         cases.append([rng.choice([None, None, rng.randint(0, L + 3)]) for _ in range(L)])
+    # every item class at a fixed location that differs from its automatic slot (directed), for each class
+    directed = []
+    for kd in ITEM_KINDS:
+        directed += [([2, None, None], [kd, "csr", "storage"]), ([None, 0], ["storage", kd]),
+                     ([None, None, 5], ["csr", "status", kd]), ([3], [kd])]
+    kinds_of = []
+    for ci, c in enumerate(cases):
+        if ci < n_exh:
+            kinds_of.append([ITEM_KINDS[(k + ci) % len(ITEM_KINDS)] for k in range(len(c))])
+        else:
+            kinds_of.append([rng.choice(ITEM_KINDS) for _ in c])
+    for c, kds in directed:
+        cases.append(c)
+        kinds_of.append(kds)
     lines = ["sort " + " ".join(str(0 if n is None else n + 1) for n in c) for c in cases]
     ans = ctx.lean.call_batch(lines)
     nontriv = 0
-    for c, a in zip(cases, ans):
-        real = _real_sort(c)
+    for c, kds, a in zip(cases, kinds_of, ans):
+        real = _real_sort(c, kds)
         if real[0] == "ok":
             exp = "ok " + " ".join(str(0 if s is None else s + 1) for s in real[1])
             msg = _sort_oracle(c, real[1])
             if msg:
-                out.append({"kind": "monitor:" + msg, "instance": "_sort_gathered_items", "fixed": c, "real": real[1]})
+                out.append({"kind": "monitor:" + msg, "instance": "_sort_gathered_items", "fixed": c, "kinds": kds,
+                            "real": real[1]})
             if any(n is not None for n in c):
                 nontriv += 1
         else:
             exp = real[0]
         ctx.cov.count("sort:" + real[0])
         if a.strip() != exp.strip():
-            out.append({"kind": "correspondence", "instance": "_sort_gathered_items", "fixed": c, "real": exp, "model": a})
+            out.append({"kind": "correspondence", "instance": "_sort_gathered_items", "fixed": c, "kinds": kds, "real": exp,
+                        "model": a})
     ctx.cov.add_cases("_sort_gathered_items (all lists len<=3 over {None,0..4} + random)", len(cases), nontriv,
                       exhaustive=False)
     # through AutoCSR.get_csrs(sort=True) on a real module
@@ -287,13 +335,19 @@ def correspond_sort(ctx, out, n_cases):
             pass
         m = M()
         objs = []
+        kds = [rng.choice(ITEM_KINDS[:6]) for _ in fx]
         for k, n in enumerate(fx):
-            o = csr.CSRStorage(rng.choice((1, 9)), name="z%d" % (L - k), n=n)     # names anti-sorted: DUID order rules
+            o = _mk_item(kds[k], "z%d" % (L - k), n)       # names anti-sorted: DUID order rules
             setattr(m, "z%d" % (L - k), o)
             objs.append(o)
         try:
             res = m.get_csrs(sort=True)
-            real = "ok " + " ".join(str(objs.index(x) + 1) if x in objs else "0" for x in res)
+            slots = [next((i for i, o in enumerate(objs) if o is x), None) for x in res]
+            real = "ok " + " ".join(str(0 if i is None else i + 1) for i in slots)
+            msg = _sort_oracle(fx, slots)
+            if msg:
+                out.append({"kind": "monitor:" + msg, "instance": "_sort_gathered_items", "fixed": fx, "kinds": kds,
+                            "real": slots, "via": "AutoCSR.get_csrs(sort=True)"})
         except ValueError:
             real = "conflict"
         except IndexError:
@@ -549,7 +603,7 @@ def correspond_gather(ctx, out, n_cases):
         for k in range(L):
             where = rng.choice((top, top, kid, grand))
             fixed = rng.choice([None, None, rng.randint(0, L + 2)])
-            o = csr.CSRStorage(rng.choice((1, 9)), name=names[k], n=fixed) if rng.random() < 0.7 else csr.CSR(1, name=names[k], n=fixed)
+            o = _mk_item(rng.choice(ITEM_KINDS[:6]), names[k], fixed)
             setattr(where, names[k], o)
             if where is top and rng.random() < 0.15:
                 excluded.add(names[k])
@@ -687,7 +741,7 @@ def replay(ctx, payload):
         return generic_replay(ctx, payload, jobs("thorough", payload.get("seed", 0)) + jobs("quick", payload.get("seed", 0)))
     inp = fi.get("input") or {}
     if fi.get("instance") == "_sort_gathered_items":
-        real = _real_sort(inp["fixed"])
+        real = _real_sort(inp["fixed"], inp.get("kinds"))
         msg = _sort_oracle(inp["fixed"], real[1]) if real[0] == "ok" else None
         print("fixed=%r -> %r" % (inp["fixed"], real))
         if msg:
